@@ -31,8 +31,9 @@ def impl_model(tbl, live_amr=False):
         from penman.models.amr import model
         return model
     cls = NoOpModel if tbl['noop'] else Model
+    # reifications is documented as an Iterable: pass a ONE-SHOT iterator, as a caller reading rows from a file would
     return cls(roles={r: {} for r in tbl['roles']}, normalizations=dict(tbl['norms']),
-               reifications=[tuple(r) for r in tbl['reifs']])
+               reifications=(tuple(r) for r in tbl['reifs']))
 
 
 def wire_model(tbl):
